@@ -8,8 +8,8 @@ are removed at the end (pass --keep to keep them for the next batch).
 """
 import json, os, shutil, subprocess, sys, time
 
-WT = "/tmp/seedwt"
-TGT = "/tmp/seedwt-target"
+WT = os.environ.get("SEED_WT", "/tmp/seedwt")
+TGT = WT + "-target"
 SEEDED = os.environ.get("SEEDED_DIR", "/verif/seeded")
 
 
@@ -49,7 +49,7 @@ def main():
         if os.path.exists(rs):
             import re
             txt = open(rs).read()
-            txt = re.sub(r"/tmp/wt/C\d+", WT, txt)
+            txt = re.sub(r"/tmp/wt/[A-Z]\d+", WT, txt)
             txt = txt.replace(WT + "/target", TGT)
             open(rs, "w").write(txt)
         rc, out = sh("git apply --check %s/patch.diff" % rel, cwd=WT)
